@@ -107,6 +107,7 @@ def decOp : Sexp → Option HeapOp
     | "newPathSet", [] => some (.api .newPathSet)
     | "psAdd", [g, p, h] => do pure (.api (.psAdd (← nat g) (← nat p) (← int h)))
     | "psHas", [g, p, h] => do pure (.api (.psHas (← nat g) (← nat p) (← int h)))
+    | "psAddAllSteps", [g, p, hs] => do pure (.api (.psAddAllSteps (← nat g) (← nat p) (← intL hs)))
     | "psRemove", [g, p, h] => do pure (.api (.psRemove (← nat g) (← nat p) (← int h)))
     | "psList", [g, p] => do pure (.api (.psList (← nat g) (← natL p)))
     | "walkBegin", [v] => do pure (.api (.walkBegin (← nat v)))
